@@ -13,7 +13,8 @@ use piecewise_polynomial::*;
 use serde_json::json;
 
 fn knot(r: &mut Rng) -> Knot {
-    let x = match r.below(8) {
+    let x = match r.below(9) {
+        8 => r.sign() * 10f64.powf(r.uniform(-300.0, -80.0)),
         0 => 0.0,
         1 => 2.0,
         2 => -r.uniform(0.0, 10.0),
